@@ -503,12 +503,20 @@ func c17Placeholders(res *PureResult, add func(string)) {
 	layouts := []string{"${A}", "x${A}", "${A}y", "${A}${A}", "${A}${B}", "p${A}q${B}r", "${B}-${A}-${B}", "plain", "${A}${B}${A}"}
 	// values: plain, and values carrying characters that are special in regexp replacement templates / YAML
 	// plain scalars (the value must arrive verbatim)
-	aVals := []string{"", "va", "p$w", "a$1b", "$$", "x$", "$0y", "a b", "ü-1", "$A", "a:b", "#c"}
-	bVals := []string{"", "vb", "v$2"}
+	// ("" = the variable is unset; setEmpty = it is set, to the empty string - a set variable is replaced)
+	const setEmpty = "\x00set-to-the-empty-string"
+	aVals := []string{"", setEmpty, "va", "p$w", "a$1b", "$$", "x$", "$0y", "a b", "ü-1", "$A", "a:b", "#c"}
+	bVals := []string{"", setEmpty, "vb", "v$2"}
 	for _, lay := range layouts {
 		for _, av := range aVals {
 			for _, bv := range bVals {
 				aSet, bSet := av != "", bv != ""
+				if av == setEmpty {
+					av = ""
+				}
+				if bv == setEmpty {
+					bv = ""
+				}
 				os.Unsetenv("A")
 				os.Unsetenv("B")
 				if aSet {
@@ -536,7 +544,7 @@ func c17Placeholders(res *PureResult, add func(string)) {
 				}
 				for name, got := range map[string]string{"hosts[0]": c.Hosts[0], "username": c.Username, "bucketName": c.BucketName, "dcp.group.name": c.Dcp.Group.Name, "metadata.config.bucket": c.Metadata.Config["bucket"]} {
 					if got != want {
-						add(fmt.Sprintf("placeholder layout %q (A=%q, B=%q; empty = unset): %s = %q, want %q", lay, av, bv, name, got, want))
+						add(fmt.Sprintf("placeholder layout %q (A set=%v %q, B set=%v %q): %s = %q, want %q", lay, aSet, av, bSet, bv, name, got, want))
 					}
 				}
 			}
